@@ -285,6 +285,7 @@ theorem c05_resume_only_suspended {s : State} (h : Reachable s) (a : Act) (x : N
         right; grind [upd_apply]
       · left; simpa using hx
     | job => left; simpa [coStep] using hx
+    | fwait => left; simpa [coStep] using hx
     | park =>
       exact key _ St.parked (mid_suspend s c St.parked hI hc (by simp) (by simp) (by simp)) rfl (by simp) (by simp) hx
     | parkNext =>
@@ -372,6 +373,7 @@ theorem c05_resume_only_suspended {s : State} (h : Reachable s) (a : Act) (x : N
     | parkPar => simp [mainStep, hc] at hx
     | hop => simp [mainStep, hc] at hx
     | hopCur => simp [mainStep, hc] at hx
+    | fwait => simp [mainStep, hc] at hx
     | start d fut =>
       simp only [mainStep, mainStart] at hx
       split at hx
@@ -511,6 +513,14 @@ theorem c05_can_block {s : State} (h : Reachable s) :
     have := c05_drain h hc hb
     simp [canBlock, this.1]
   · simp [canBlock]
+
+/-- **A blocking wait is not a suspension**: `force_wait()`/`force_sync()` on a future that another thread
+resolves blocks the thread and returns; between the start and the end of the call nothing is resumed on this
+thread: the caller is still the one executing, the ready queue, the dequeue log and the resume log are untouched,
+no activation begins or ends (whatever the caller had made ready is still queued afterwards). -/
+theorem c05_blocking_wait (s : State) : step s Act.fwait = s := by
+  unfold step
+  split <;> rfl
 
 /-- The pinned (unrepaired) `parallel`: the awaiting coroutine 0 was resumed in its new thread by a bare
 `h.resume()`, i.e. outside coroutine mode; when it then detaches coroutine 1 and drops the suspend point, 1 runs
